@@ -399,6 +399,14 @@ func (e *lookupEnv) runOp(ctx context.Context) {
 		}
 		tr.AddBuf(3, "", "ChanClosed", "ts", e.now())
 		tr.AddBuf(3, "", "Return", "peers", got, "err", errClass(ctx.Err()), "ts", e.now())
+	case "getpubkey":
+		pk, err := d.GetPublicKey(ctx, e.target)
+		match := false
+		if pk != nil {
+			id, ierr := peer.IDFromPublicKey(pk)
+			match = ierr == nil && id == e.target
+		}
+		tr.AddBuf(3, "", "Return", "val", "", "valid", match, "rank", 0, "match", match, "haskey", pk != nil, "err", errClass(err), "ts", e.now())
 	case "putvalue":
 		err := d.PutValue(ctx, e.key, []byte(sc.PutVal))
 		tr.AddBuf(3, "", "Return", "err", errClass(err), "localval", e.localValue(), "ts", e.now())
